@@ -1,10 +1,64 @@
-"""C09 - see lib/props/_updater.py (shared history generator, model/implementation runs, predicates)."""
-from props import _updater
+"""C09 - nothing but Unknown before the first measurement.
+Daemon side: lib/props/_updater.py (shared history generator, model/implementation runs, predicates
+on the published sequence).  Client side: the records a never-synchronised daemon publishes are read
+through the real now() of both Rust client paths at monotonic readings from boot to beyond their
+void-after instant; the status handed to the application must be Unknown throughout."""
+import random
+import common as c
+from props import _updater, _client
+
+NS = 10 ** 9
+
+
+def client_part(res):
+    rng = random.Random(res.seed * 911 + 9)
+    binary = c.build_harness("debug")[0]
+    hists = [_updater.line_of(rng.choice([0, 1000, 50000]), _updater.gen_history(rng, 6, _updater.MIXES[2])) for _ in range(60)]
+    outs = c.run_lines(binary, hists)
+    recs = set()
+    for o in outs:
+        for r in (_updater.parse_out(o) or []):
+            recs.add(r)
+    recs = sorted(recs)
+    lines, meta = [], []
+    for (as_s, as_n, va_s, va_n, bound, drift, st) in recs:
+        as_of, void = as_s * NS + as_n, va_s * NS + va_n
+        for mono in (as_of, as_of + 1, as_of + 5 * NS - 1, as_of + 5 * NS, as_of + 5 * NS + 1, as_of + 100 * NS, void - 1, void, void + 1, void + 10 ** 5 * NS):
+            lines.append(_client.mk(as_of, void, bound, drift, st, rng.randrange(10 ** 9, 2 * 10 ** 9) * NS, mono))
+            meta.append((as_s, as_n, va_s, va_n, bound, drift, st))
+    impl = c.run_lines(binary, lines)
+    model = c.run_model(lines)
+    res.evaluations += len(lines)
+    res.count("gen:records of a never-synchronised daemon read through now()", len(lines))
+    bad, diffs = [], []
+    for ln, rec, i, m in zip(lines, meta, impl, model):
+        res.nontriv(ln)
+        r = _client.parse_result(i)
+        if _client.parse_result(m).get("status") != r.get("status") or _client.parse_result(m)["kind"] != r["kind"]:
+            diffs.append({"case": ln, "impl": i, "model": m})
+        if r["kind"] == "ok" and r["status"] != 0:
+            bad.append({"case": ln, "published_record": rec, "impl": i, "model": m,
+                        "why": ["a record published before any synchronised report (status Unknown) is handed to the application with status %d "
+                                "(1 Synchronized, 2 FreeRunning) at monotonic reading %s" % (r["status"], ln.split()[-2:])]})
+    res.oblige("correspondence:now() on the records of a never-synchronised daemon vs Client.compute_bound_at (status)", not diffs)
+    if bad:
+        res.violation({"property": "C09", "kind": "input", "case": bad[0], "others": [b["case"] for b in bad[1:4]],
+                       "predicate": "status handed to the application is Unknown for every record published before the first synchronised report",
+                       "how_to_replay": "./check C06 --replay <this file>"})
+    elif diffs:
+        res.violation({"property": "C09", "kind": "obligation", "obligation": "correspondence: now() status on never-synchronised records",
+                       "first_differences": diffs[:3]}, found_input=False)
 
 
 def run(res, proofs_ok, proofs_why):
     _updater.run_property("C09", res, proofs_ok, proofs_why)
+    client_part(res)
 
 
 def replay(res, path):
+    import json
+    r = json.load(open(path))
+    case = r.get("case", {})
+    if isinstance(case, dict) and str(case.get("case", "")).startswith("cba"):
+        return _client.replay_property("C06", res, path) if hasattr(_client, "replay_property") else 1
     return _updater.replay_property("C09", res, path)
